@@ -1,21 +1,1262 @@
-//! client-side properties
-use super::*;
+//! Client-side properties: C01, C02, C06, C10, C12, C13, C15, C16, C20.
 
-pub fn gen_c01(_out: &mut Out, _rng: &mut Rng, _thorough: bool) {}
-pub fn mon_c01(_out: &mut Out, _l: &str, _r: &str) {}
-pub fn gen_c02(_out: &mut Out, _rng: &mut Rng, _thorough: bool) {}
-pub fn mon_c02(_out: &mut Out, _l: &str, _r: &str) {}
-pub fn gen_c06(_out: &mut Out, _rng: &mut Rng, _thorough: bool) {}
-pub fn mon_c06(_out: &mut Out, _l: &str, _r: &str) {}
-pub fn gen_c10(_out: &mut Out, _rng: &mut Rng, _thorough: bool) {}
-pub fn mon_c10(_out: &mut Out, _l: &str, _r: &str) {}
-pub fn gen_c12(_out: &mut Out, _rng: &mut Rng, _thorough: bool) {}
-pub fn mon_c12(_out: &mut Out, _l: &str, _r: &str) {}
-pub fn gen_c13(_out: &mut Out, _rng: &mut Rng, _thorough: bool) {}
-pub fn mon_c13(_out: &mut Out, _l: &str, _r: &str) {}
-pub fn gen_c15(_out: &mut Out, _rng: &mut Rng, _thorough: bool) {}
-pub fn mon_c15(_out: &mut Out, _l: &str, _r: &str) {}
-pub fn gen_c16(_out: &mut Out, _rng: &mut Rng, _thorough: bool) {}
-pub fn mon_c16(_out: &mut Out, _l: &str, _r: &str) {}
-pub fn gen_c20(_out: &mut Out, _rng: &mut Rng, _thorough: bool) {}
-pub fn mon_c20(_out: &mut Out, _l: &str, _r: &str) {}
+use super::stream::{parse_events, split_rtu_clean};
+use super::*;
+use crate::run::TypedOp;
+use crate::spec::MbapItem;
+
+// ================================================================ helpers
+
+fn frame(kind: &str, tid: u16, unit: u8, pdu: &[u8]) -> Vec<u8> {
+    if kind == "tcp" {
+        spec::mbap(tid, unit, pdu)
+    } else {
+        spec::rtu_frame(unit, pdu)
+    }
+}
+
+/// function codes whose *responses* the RTU client can delimit
+const RTU_RSP_CODES: &[u8] = &[
+    0x01, 0x02, 0x03, 0x04, 0x05, 0x06, 0x07, 0x0B, 0x0C, 0x0F, 0x10, 0x11, 0x16, 0x17, 0x18,
+];
+/// function codes whose *requests* the RTU servers can delimit
+const RTU_REQ_CODES: &[u8] = &[
+    0x01, 0x02, 0x03, 0x04, 0x05, 0x06, 0x07, 0x0B, 0x0C, 0x0F, 0x10, 0x11, 0x16, 0x17, 0x18,
+];
+
+/// a valid response PDU whose function code is `fc` (< 0x80)
+fn response_pdu_with_code(rng: &mut Rng, fc: u8, rtu: bool) -> Vec<u8> {
+    use Response::*;
+    let r = match fc {
+        0x01 => ReadCoils(rng.bits_in(0, 40)),
+        0x02 => ReadDiscreteInputs(rng.bits_in(0, 40)),
+        0x03 => ReadHoldingRegisters(rng.words_in(0, 10)),
+        0x04 => ReadInputRegisters(rng.words_in(0, 10)),
+        0x05 => WriteSingleCoil(rng.u16(), rng.bool()),
+        0x06 => WriteSingleRegister(rng.u16(), rng.u16()),
+        0x0F => WriteMultipleCoils(rng.u16(), rng.u16()),
+        0x10 => WriteMultipleRegisters(rng.u16(), rng.u16()),
+        0x11 => ReportServerId(rng.u8(), rng.bool(), rng.bytes_in(0, 10)),
+        0x16 => MaskWriteRegister(rng.u16(), rng.u16(), rng.u16()),
+        0x17 => ReadWriteMultipleRegisters(rng.words_in(0, 10)),
+        _ => {
+            let data = if rtu {
+                // what the RTU response length table expects for the unmodelled codes
+                match fc {
+                    0x07 => rng.bytes(1),
+                    0x0B => rng.bytes(4),
+                    0x0C => {
+                        let d = rng.bytes_in(0, 6);
+                        let mut v = vec![d.len() as u8];
+                        v.extend(d);
+                        v
+                    }
+                    0x18 => {
+                        let d = rng.bytes_in(0, 6);
+                        let mut v = vec![0, d.len() as u8];
+                        v.extend(d);
+                        v
+                    }
+                    _ => rng.bytes_in(0, 6),
+                }
+            } else {
+                rng.bytes_in(0, 8)
+            };
+            Custom(fc, Bytes::from(data))
+        }
+    };
+    spec::response_bytes(&r).unwrap()
+}
+
+/// a request whose function code is `fc` (< 0x80); typed variant for modelled codes (or raw custom)
+fn request_with_code(rng: &mut Rng, fc: u8, raw: bool) -> Request<'static> {
+    use Request::*;
+    if raw || !MODELLED_REQ.contains(&fc) {
+        return Custom(fc, Cow::Owned(rng.bytes_in(0, 6)));
+    }
+    match fc {
+        0x01 => ReadCoils(rng.u16(), rng.u16()),
+        0x02 => ReadDiscreteInputs(rng.u16(), rng.u16()),
+        0x03 => ReadHoldingRegisters(rng.u16(), rng.u16()),
+        0x04 => ReadInputRegisters(rng.u16(), rng.u16()),
+        0x05 => WriteSingleCoil(rng.u16(), rng.bool()),
+        0x06 => WriteSingleRegister(rng.u16(), rng.u16()),
+        0x0F => WriteMultipleCoils(rng.u16(), Cow::Owned(rng.bits_in(0, 20))),
+        0x10 => WriteMultipleRegisters(rng.u16(), Cow::Owned(rng.words_in(0, 5))),
+        0x11 => ReportServerId,
+        0x16 => MaskWriteRegister(rng.u16(), rng.u16(), rng.u16()),
+        _ => ReadWriteMultipleRegisters(rng.u16(), rng.u16(), rng.u16(), Cow::Owned(rng.words_in(0, 5))),
+    }
+}
+
+/// Render the decoded form of a reply PDU as the library's result carries it.
+fn reply_rr(pdu: &[u8]) -> Option<String> {
+    if pdu.first()? >= &0x80 {
+        if pdu.len() < 2 {
+            return None;
+        }
+        return Some(format!("E={}:{}", hex8(pdu[0] - 0x80), hex8(pdu[1])));
+    }
+    match spec::classify_response(pdu) {
+        Verdict::Accept(r) => Some(format!("R={}", response(&r))),
+        _ => None,
+    }
+}
+
+struct OpView<'a> {
+    name: &'a str,
+    arg: &'a str,
+    fields: Vec<&'a str>,
+}
+
+fn ops_of(l: &str) -> (Vec<&str>, Vec<OpView<'_>>) {
+    let ps: Vec<&str> = l.split(" | ").collect();
+    let head: Vec<&str> = ps[0].split(' ').collect();
+    let ops = ps[1..]
+        .iter()
+        .map(|o| {
+            let f: Vec<&str> = o.split(' ').filter(|s| !s.is_empty()).collect();
+            let name = f.first().copied().unwrap_or("");
+            let (arg, fields) = match name {
+                "call" | "typed" | "slave" => (f.get(1).copied().unwrap_or(""), f.get(2..).unwrap_or(&[]).to_vec()),
+                _ => ("", f.get(1..).unwrap_or(&[]).to_vec()),
+            };
+            OpView { name, arg, fields }
+        })
+        .collect();
+    (head, ops)
+}
+
+/// header the `idx`-th op's request is expected to carry: (tid, unit)
+fn expected_hdr(head: &[&str], ops: &[OpView<'_>], idx: usize) -> (u16, u8) {
+    let kind = head[1];
+    let mut unit = match head[2] {
+        "-" => {
+            if kind == "tcp" {
+                255
+            } else {
+                0
+            }
+        }
+        s => p_u8(s).unwrap(),
+    };
+    let mut tid: u16 = 0;
+    for o in &ops[..idx] {
+        match o.name {
+            "call" | "typed" => {
+                // a future that is never polled does nothing at all
+                if field("b", &o.fields) != "0" {
+                    tid = tid.wrapping_add(1);
+                }
+            }
+            "slave" => unit = p_u8(o.arg).unwrap(),
+            _ => {}
+        }
+    }
+    (if kind == "tcp" { tid } else { 0 }, unit)
+}
+
+fn op_request(o: &OpView<'_>) -> Option<Request<'static>> {
+    match o.name {
+        "call" => p_request(o.arg),
+        "typed" => Some(TypedOp::parse(o.arg)?.request()),
+        _ => None,
+    }
+}
+
+fn written(res_part: &str) -> Vec<u8> {
+    // "... w=AA+BB sd=N"
+    let w = res_part
+        .split(' ')
+        .find_map(|t| t.strip_prefix("w="))
+        .unwrap_or("-");
+    if w == "-" {
+        return vec![];
+    }
+    w.split('+').flat_map(|h| p_bytes(h).unwrap()).collect()
+}
+
+fn outcome_of(res_part: &str) -> &str {
+    res_part.split(" w=").next().unwrap_or("")
+}
+
+// ================================================================ C06
+
+pub fn gen_c06(out: &mut Out, rng: &mut Rng, thorough: bool) {
+    let reps = if thorough { 6 } else { 1 };
+    for _ in 0..reps {
+        for kind in ["tcp", "rtu"] {
+            for req_fc in 0..0x80u8 {
+                for rsp_code in 0..=255u8 {
+                    let base = rsp_code & 0x7F;
+                    if kind == "rtu" && (!RTU_RSP_CODES.contains(&base) || (rsp_code >= 0x80 && base > 0x2B)) {
+                        continue;
+                    }
+                    // thin the full cross product in the quick tier, keep every diagonal and near-diagonal pair
+                    let near = base == req_fc || rsp_code == req_fc;
+                    if !thorough && !near && rng.below(4) != 0 {
+                        continue;
+                    }
+                    let raw = rng.bool();
+                    let req = request_with_code(rng, req_fc, raw);
+                    let slave = rng.u8();
+                    let pdu = if rsp_code < 0x80 {
+                        response_pdu_with_code(rng, rsp_code, kind == "rtu")
+                    } else {
+                        vec![rsp_code, rng.u8()]
+                    };
+                    // header variants: right, wrong tid, wrong unit
+                    let hv = rng.below(6);
+                    let (tid, unit) = match hv {
+                        0 if kind == "tcp" => (rng.u16() | 1, slave),
+                        1 => (0, slave.wrapping_add(1 + rng.u8() % 254)),
+                        _ => (0, slave),
+                    };
+                    monitor_line(
+                        out,
+                        &format!(
+                            "cli {kind} {} | call {} r=d{}",
+                            hex8(slave),
+                            request(&req),
+                            hex_raw(&frame(kind, tid, unit, &pdu))
+                        ),
+                    );
+                }
+            }
+        }
+    }
+    // after random earlier calls and set_slave changes
+    for i in 0..(if thorough { 100_000 } else { 6_000 }) {
+        let kind = if i % 2 == 0 { "tcp" } else { "rtu" };
+        let mut line = format!("cli {kind} {}", if rng.bool() { "-".into() } else { hex8(rng.u8()) });
+        let mut tid: u16 = 0;
+        let mut unit: u8 = match &line[8..] {
+            "-" => {
+                if kind == "tcp" {
+                    255
+                } else {
+                    0
+                }
+            }
+            s => p_u8(s).unwrap(),
+        };
+        let n = rng.range(0, 4);
+        for step in 0..=n {
+            if rng.chance(1, 3) {
+                unit = rng.u8();
+                line.push_str(&format!(" | slave {}", hex8(unit)));
+            }
+            let fc = if kind == "rtu" { *rng.pick(RTU_RSP_CODES) } else { rng.u8() & 0x7F };
+            let raw = rng.chance(1, 4);
+            let req = request_with_code(rng, fc, raw);
+            let last = step == n;
+            let (rfc, rtid, runit) = if last {
+                match rng.below(6) {
+                    0 => (fc, tid.wrapping_add(rng.u16() | 1), unit),
+                    1 => (fc, tid, unit ^ (1 << rng.below(8))),
+                    2 => (if kind == "rtu" { *rng.pick(RTU_RSP_CODES) } else { rng.u8() & 0x7F }, tid, unit),
+                    _ => (fc, tid, unit),
+                }
+            } else {
+                (fc, tid, unit)
+            };
+            let pdu = if rng.chance(1, 4) {
+                vec![rfc | 0x80, rng.u8()]
+            } else {
+                response_pdu_with_code(rng, rfc, kind == "rtu")
+            };
+            line.push_str(&format!(
+                " | call {} r=d{}",
+                request(&req),
+                hex_raw(&frame(kind, rtid, runit, &pdu))
+            ));
+            tid = tid.wrapping_add(1);
+        }
+        monitor_line(out, &line);
+    }
+}
+
+pub fn mon_c06(out: &mut Out, l: &str, r: &str) {
+    let (head, ops) = ops_of(l);
+    if head[0] != "cli" {
+        return;
+    }
+    let kind = head[1];
+    let res = parts(r);
+    for (i, o) in ops.iter().enumerate() {
+        if o.name != "call" {
+            continue;
+        }
+        let Some(req) = op_request(o) else { continue };
+        let Some(reqb) = spec::request_bytes(&req) else { continue };
+        let (tid, unit) = expected_hdr(&head, &ops, i);
+        let pe = parse_events(field("r", &o.fields));
+        if pe.has_fault {
+            continue;
+        }
+        // the reply must be exactly one well-formed frame
+        let (rh, pdu) = if kind == "tcp" {
+            match spec::split_mbap(&pe.data).as_slice() {
+                [MbapItem::Frame(t, u, p)] => ((*t, *u), p.clone()),
+                _ => continue,
+            }
+        } else {
+            match split_rtu_clean(&pe.data, false) {
+                Some(v) if v.len() == 1 => ((0, v[0].0), v[0].1.clone()),
+                _ => continue,
+            }
+        };
+        let Some(rr) = reply_rr(&pdu) else { continue };
+        let got = outcome_of(res.get(i).copied().unwrap_or(""));
+        let same_hdr = rh == (tid, unit);
+        let rsp_fc = pdu[0] & 0x7F;
+        let expect = if !same_hdr {
+            format!("hm {rr}")
+        } else if rsp_fc != reqb[0] {
+            format!("fm {rr}")
+        } else if pdu[0] >= 0x80 {
+            format!("exc {}", hex8(pdu[1]))
+        } else {
+            format!("ok {}", &rr[2..])
+        };
+        out.check(got == expect, || format!("call {i}: request header ({tid:04X},{unit:02X}) fc {:02X}, reply header ({:04X},{:02X}) code {:02X}: expected `{}` got `{}`", reqb[0], rh.0, rh.1, pdu[0], super::codec::trunc(&expect), super::codec::trunc(got)), l);
+    }
+}
+
+// ================================================================ C10
+
+pub fn gen_c10(out: &mut Out, rng: &mut Rng, thorough: bool) {
+    // more than one (quick) / two (thorough) full wraps, interleaved with failing calls,
+    // exceptions, oversized requests and set_slave
+    let total = if thorough { 140_000 } else { 70_000 };
+    let mut line = String::from("cli tcp -");
+    let mut tid: u16 = 0;
+    let mut unit: u8 = 255;
+    for i in 0..total {
+        // the long stretches are plain calls; every so often something else happens
+        match if i % 64 == 0 { rng.below(8) } else { 7 } {
+            0 => {
+                unit = rng.u8();
+                line.push_str(&format!(" | slave {}", hex8(unit)));
+                line.push_str(" | call RSI r=e");
+            }
+            1 => {
+                // rejected before transmission
+                line.push_str(&format!(" | call CU:41:{} r=-", hex_raw(&rng.bytes(260))));
+            }
+            2 => {
+                // exception reply
+                line.push_str(&format!(" | call RSI r=d{}", hex_raw(&spec::mbap(tid, unit, &[0x91, 0x02]))));
+            }
+            3 => {
+                // good reply
+                line.push_str(&format!(" | call RHR:0000:0001 r=d{}", hex_raw(&spec::mbap(tid, unit, &[0x03, 0x02, 0xAB, 0xCD]))));
+            }
+            4 => line.push_str(" | call RSI r=xk1"),
+            5 => {
+                // mismatching reply
+                line.push_str(&format!(" | call RSI r=d{}", hex_raw(&spec::mbap(tid.wrapping_add(5), unit, &[0x11, 0x02, 0x01, 0xFF]))));
+            }
+            6 => line.push_str(" | call RSI w=xk3"),
+            _ => line.push_str(" | call RSI r=e"),
+        }
+        tid = tid.wrapping_add(1);
+    }
+    monitor_line(out, &line);
+    // random shorter histories
+    for _ in 0..(if thorough { 10_000 } else { 300 }) {
+        let mut line = String::from("cli tcp -");
+        for _ in 0..rng.range(1, 40) {
+            match rng.below(6) {
+                0 => line.push_str(&format!(" | slave {}", hex8(rng.u8()))),
+                1 => line.push_str(&format!(" | call CU:41:{}", hex_raw(&rng.bytes(300)))),
+                2 => line.push_str(" | call RSI r=xk2"),
+                3 => line.push_str(&format!(" | call {} r=e", request(&gen_request(rng, Some(3))))),
+                4 => line.push_str(" | call RSI w=z"),
+                _ => line.push_str(" | call RSI r=e"),
+            }
+        }
+        monitor_line(out, &line);
+    }
+}
+
+pub fn mon_c10(out: &mut Out, l: &str, r: &str) {
+    let (head, ops) = ops_of(l);
+    if head[0] != "cli" || head[1] != "tcp" {
+        return;
+    }
+    let res = parts(r);
+    // ids consumed never run ahead of the calls made, and every transmitted frame takes a fresh one
+    let mut last: Option<u16> = None;
+    let mut unwrapped: u64 = 0;
+    let mut calls_so_far: u64 = 0;
+    let mut ids: Vec<u16> = vec![];
+    for (i, o) in ops.iter().enumerate() {
+        if o.name != "call" && o.name != "typed" {
+            continue;
+        }
+        if field("b", &o.fields) != "0" {
+            calls_so_far += 1;
+        }
+        // frames that reached the transport during this call (a frame left over by an
+        // earlier failed write goes out first)
+        let w = written(res.get(i).copied().unwrap_or(""));
+        for f in spec::split_mbap(&w) {
+            let MbapItem::Frame(tid, _, _) = f else { continue };
+            match last {
+                None => unwrapped = u64::from(tid),
+                Some(prev) => {
+                    let d = u64::from(tid.wrapping_sub(prev));
+                    out.check(d >= 1, || format!("transaction id {tid:04X} transmitted in call {i} repeats the previous one"), &super::codec::trunc(l));
+                    unwrapped += d;
+                }
+            }
+            let ok = unwrapped + 1 <= calls_so_far;
+            out.check(ok, || format!("transaction id {tid:04X} transmitted in call {i}: {} ids used up by {calls_so_far} calls", unwrapped + 1), &super::codec::trunc(l));
+            if !ok {
+                return;
+            }
+            last = Some(tid);
+            ids.push(tid);
+        }
+    }
+    // without failed writes every call's frame goes out during that very call: exact accounting
+    let clean = ops.iter().all(|o| field("w", &o.fields).is_empty());
+    if clean {
+        let mut idx: u64 = 0;
+        for (i, o) in ops.iter().enumerate() {
+            if o.name != "call" && o.name != "typed" {
+                continue;
+            }
+            let w = written(res.get(i).copied().unwrap_or(""));
+            if w.len() >= 2 {
+                let tid = u16::from(w[0]) << 8 | u16::from(w[1]);
+                out.check(u64::from(tid) == idx % 65536, || format!("call number {idx} carries transaction id {tid:04X}"), &super::codec::trunc(l));
+            }
+            idx += 1;
+        }
+    }
+    // Pairwise distinctness within 65536 consecutive calls follows from the two checks above
+    // (every transmitted frame advances the unwrapped id by at least one, and the ids used up
+    // never exceed the calls made); `ids` is kept for the evidence only.
+    let _ = ids;
+}
+
+// ================================================================ C12
+
+fn c12_outcome(rng: &mut Rng, kind: &str, which: usize, tid: u16, unit: u8) -> String {
+    let good_req = Request::ReadHoldingRegisters(rng.u16(), 2);
+    let good_pdu = vec![0x03, 0x04, rng.u8(), rng.u8(), rng.u8(), rng.u8()];
+    let rq = request(&good_req);
+    match which {
+        // good reply
+        0 => format!("call {rq} r=d{}", hex_raw(&frame(kind, tid, unit, &good_pdu))),
+        // exception
+        1 => format!("call {rq} r=d{}", hex_raw(&frame(kind, tid, unit, &[0x83, 0x02]))),
+        // wrong header
+        2 => format!("call {rq} r=d{}", hex_raw(&frame(kind, tid.wrapping_add(1), unit.wrapping_add(1), &good_pdu))),
+        // wrong function
+        3 => format!("call {rq} r=d{}", hex_raw(&frame(kind, tid, unit, &[0x04, 0x02, 0x00, 0x01]))),
+        // undecodable frame
+        4 => {
+            if kind == "tcp" && rng.bool() {
+                let mut f = frame(kind, tid, unit, &good_pdu);
+                f[3] = 0x09; // protocol id
+                format!("call {rq} r=d{}", hex_raw(&f))
+            } else {
+                // well-framed, but the PDU is malformed (bad coil value)
+                format!("call {rq} r=d{}", hex_raw(&frame(kind, tid, unit, &[0x05, 0x00, 0x01, 0x12, 0x34])))
+            }
+        }
+        // noise beyond the retry limit (RTU) / invalid length field (TCP)
+        5 => {
+            if kind == "tcp" {
+                format!("call {rq} r=d{}", hex_raw(&[0, 1, 0, 0, 0, 0, 9, 9, 9]))
+            } else {
+                let noise: Vec<u8> = (0..30).map(|_| 0x80 | (rng.u8() & 0x40)).collect();
+                format!("call {rq} r=d{}", hex_raw(&noise))
+            }
+        }
+        // transient read error
+        6 => format!("call {rq} r=xk{}", 1 + rng.below(2)),
+        // good reply followed by surplus bytes in the same read
+        _ => {
+            let mut f = frame(kind, tid, unit, &good_pdu);
+            f.extend(rng.bytes_in(1, 12));
+            format!("call {rq} r=d{}", hex_raw(&f))
+        }
+    }
+}
+
+const C12_FINAL_PDU: [u8; 4] = [0x03, 0x02, 0xBE, 0xEF];
+
+pub fn gen_c12(out: &mut Out, rng: &mut Rng, thorough: bool) {
+    let depth = if thorough { 5 } else { 4 };
+    for kind in ["tcp", "rtu"] {
+        let total = 8usize.pow(depth as u32);
+        for code in 0..total {
+            // all histories of length `depth` (shorter ones appear as prefixes ending in good exchanges)
+            let unit = rng.u8();
+            let mut line = format!("cli {kind} {}", hex8(unit));
+            let mut c = code;
+            for step in 0..depth {
+                let which = c % 8;
+                c /= 8;
+                line.push_str(" | ");
+                line.push_str(&c12_outcome(rng, kind, which, step as u16, unit));
+            }
+            // the final good exchange; its reply arrives in pieces
+            let f = frame(kind, depth as u16, unit, &C12_FINAL_PDU);
+            let parts = rng.composition(f.len());
+            line.push_str(&format!(" | call RHR:0007:0001 r={}", chunks_tok(&chunk(&f, &parts))));
+            monitor_line(out, &line);
+        }
+    }
+}
+
+pub fn mon_c12(out: &mut Out, l: &str, r: &str) {
+    let (head, ops) = ops_of(l);
+    if head[0] != "cli" || ops.is_empty() {
+        return;
+    }
+    let kind = head[1];
+    let i = ops.len() - 1;
+    let o = &ops[i];
+    if o.name != "call" || o.arg != "RHR:0007:0001" {
+        return;
+    }
+    let (tid, unit) = expected_hdr(&head, &ops, i);
+    let pe = parse_events(field("r", &o.fields));
+    if pe.has_fault || pe.data != frame(kind, tid, unit, &C12_FINAL_PDU) {
+        return;
+    }
+    // the transport stayed open in all earlier ops?
+    if ops[..i].iter().any(|o| parse_events(field("r", &o.fields)).ends_with_eof) {
+        return;
+    }
+    let res = parts(r);
+    let got = outcome_of(res.get(i).copied().unwrap_or(""));
+    out.check(got == "ok RHR:BEEF", || format!("the final exchange was written and its matching reply delivered, but the call returned `{got}` (earlier results: {:?})", res[..i].iter().map(|s| outcome_of(s)).collect::<Vec<_>>()), l);
+}
+
+// ================================================================ C13
+
+pub fn gen_c13(out: &mut Out, rng: &mut Rng, thorough: bool) {
+    let shapes = if thorough { 40 } else { 12 };
+    for si in 0..shapes {
+        let kind = if si % 2 == 0 { "tcp" } else { "rtu" };
+        let unit = rng.u8();
+        let req = loop {
+            let hint = rng.below(6);
+            let r = gen_request(rng, Some(hint));
+            if kind == "rtu" {
+                if let Request::Custom(..) = r {
+                    continue;
+                }
+            }
+            break r;
+        };
+        let reqb = spec::request_bytes(&req).unwrap();
+        let rsp = answer_for(rng, &req);
+        let Some(rspb) = spec::response_bytes(&rsp) else { continue };
+        if rspb.len() > 60 {
+            continue;
+        }
+        let reply = frame(kind, 0, unit, &rspb);
+        let reqf = frame(kind, 0, unit, &reqb);
+        let head = format!("cli {kind} {}", hex8(unit));
+        let rq = request(&req);
+        // reply cut at every offset by end of stream / read errors, under three ambient errno states
+        for j in 0..=reply.len() {
+            for (fi, fault) in ["e", "xk1", "xk2", "xot"].iter().enumerate() {
+                let errno = [0, 2, 13][(j + fi) % 3];
+                let pre = &reply[..j];
+                let chunks = if pre.is_empty() {
+                    String::new()
+                } else {
+                    let parts = rng.composition(pre.len());
+                    format!("{},", chunks_tok(&chunk(pre, &parts)))
+                };
+                monitor_line(out, &format!("{head} errno={errno} | call {rq} r={chunks}{fault}"));
+            }
+        }
+        // request cut at every offset by write errors / zero-length writes
+        for j in 0..reqf.len() {
+            for fault in ["xk1", "xk5", "z", "xbp"] {
+                let w = if j == 0 { fault.to_string() } else { format!("a{j},{fault}") };
+                monitor_line(out, &format!("{head} | call {rq} w={w} r=d{}", hex_raw(&reply)));
+            }
+        }
+        // every write granularity, with pending patterns: the frame still arrives once, in order
+        for g in 1..=reqf.len().min(9) {
+            let mut w = vec![];
+            let mut left = reqf.len();
+            while left > 0 {
+                if rng.chance(1, 3) {
+                    w.push("p".to_string());
+                }
+                w.push(format!("a{g}"));
+                left = left.saturating_sub(g);
+            }
+            let f = if rng.bool() { " f=p,o" } else { "" };
+            monitor_line(out, &format!("{head} | call {rq} w={}{f} r=d{}", w.join(","), hex_raw(&reply)));
+        }
+        for _ in 0..(if thorough { 300 } else { 20 }) {
+            let mut w = vec![];
+            let mut left = reqf.len();
+            while left > 0 {
+                match rng.below(4) {
+                    0 => w.push("p".to_string()),
+                    _ => {
+                        let k = rng.range(1, left.min(7));
+                        w.push(format!("a{k}"));
+                        left -= k;
+                    }
+                }
+            }
+            monitor_line(out, &format!("{head} | call {rq} w={} r=d{}", w.join(","), hex_raw(&reply)));
+        }
+    }
+}
+
+pub fn mon_c13(out: &mut Out, l: &str, r: &str) {
+    let (head, ops) = ops_of(l);
+    if head[0] != "cli" || ops.len() != 1 || ops[0].name != "call" {
+        return;
+    }
+    let kind = head[1];
+    let o = &ops[0];
+    let Some(req) = op_request(o) else { return };
+    let Some(reqb) = spec::request_bytes(&req) else { return };
+    let (tid, unit) = expected_hdr(&head, &ops, 0);
+    let reqf = frame(kind, tid, unit, &reqb);
+    let res = parts(r);
+    let got = outcome_of(res[0]);
+    let w = written(res[0]);
+    out.check(!got.contains("panic"), || "call panicked".into(), l);
+    // whatever happens, the bytes that reached the transport are a prefix of the frame
+    out.check(reqf.starts_with(&w), || format!("bytes accepted by the transport are not a prefix of the request frame: {}", hex(&w)), l);
+    let wevs = field("w", &o.fields);
+    let write_fault = wevs.split(',').find(|e| e.starts_with('x') || *e == "z" || *e == "a0");
+    if let Some(fault) = write_fault {
+        let expect = if fault == "z" || fault == "a0" { "tr:wz".to_string() } else { format!("tr:{}", &fault[1..]) };
+        out.check(got == expect, || format!("write fault `{fault}` must surface as `{expect}`, got `{got}`"), l);
+        return;
+    }
+    // no write fault: the frame arrives exactly once, in order
+    if !got.starts_with("abandoned") && !got.starts_with("blocked") || !wevs.is_empty() {
+        if got != "blocked" || w.len() == reqf.len() {
+            out.check(w == reqf, || format!("bytes written differ from the request frame: {} vs {}", hex(&w), hex(&reqf)), l);
+        }
+    }
+    let pe = parse_events(field("r", &o.fields));
+    if !pe.has_fault {
+        return;
+    }
+    // a reply cut short by end of stream or a read error: never success
+    let revs = field("r", &o.fields);
+    let last = revs.rsplit(',').next().unwrap_or("");
+    // only judge cuts that fall strictly inside (or before) the one reply frame
+    let complete = if kind == "tcp" {
+        matches!(spec::split_mbap(&pe.data).first(), Some(MbapItem::Frame(..)))
+    } else {
+        split_rtu_clean(&pe.data, false).is_some_and(|v| !v.is_empty())
+    };
+    if complete {
+        return;
+    }
+    out.check(got.starts_with("tr:"), || format!("reply cut at offset {} by `{last}` but the call returned `{got}`", pe.data.len()), l);
+    if let Some(k) = last.strip_prefix('x') {
+        out.check(got == format!("tr:{k}"), || format!("read error `{k}` must be returned unchanged, got `{got}`"), l);
+    } else if last == "e" && pe.data.is_empty() {
+        // orderly end of stream: a closed-connection kind
+        let closed = ["tr:bp", "tr:k1", "tr:k2", "tr:ue", "tr:nc"];
+        out.check(closed.contains(&got), || format!("orderly end of stream reported as `{got}`, which does not denote a closed connection"), l);
+    }
+    // determined by the transport alone: same result under another ambient errno
+    if head.iter().any(|h| h.starts_with("errno=") && *h != "errno=0") {
+        let plain: Vec<&str> = head.iter().copied().filter(|h| !h.starts_with("errno=")).collect();
+        let l0 = format!("{} | {}", plain.join(" "), l.split(" | ").skip(1).collect::<Vec<_>>().join(" | "));
+        let (_, r0) = out.case(&l0);
+        out.check(r0 == r, || format!("result depends on the ambient OS error state: `{r}` vs `{r0}`"), l);
+    }
+}
+
+// ================================================================ C15
+
+pub fn gen_c15(out: &mut Out, rng: &mut Rng, thorough: bool) {
+    // all interleavings of up to N ops over {call, slave, disconnect}, with every shutdown outcome
+    let maxlen = if thorough { 7 } else { 5 };
+    let mut shut: Vec<String> = vec!["".into(), "s=o".into(), "s=p,o".into(), "s=xnc".into(), "s=xbp".into(), "s=xid".into(), "s=xii".into(), "s=xue".into(), "s=xto".into(), "s=xwz".into(), "s=xot".into(), "s=p,p,xk5".into()];
+    for k in 0..crate::wire::INJECTED.len() {
+        shut.push(format!("s=xk{k}"));
+    }
+    for kind in ["tcp", "rtu"] {
+        for len in 1..=maxlen {
+            let total = 3usize.pow(len as u32);
+            for code in 0..total {
+                let mut c = code;
+                let mut seq = vec![];
+                for _ in 0..len {
+                    seq.push(c % 3);
+                    c /= 3;
+                }
+                if !seq.contains(&2) {
+                    continue;
+                }
+                // one line per shutdown outcome for short sequences, a random one otherwise
+                let outcomes: Vec<String> = if len <= 3 { shut.clone() } else { vec![rng.pick(&shut).clone()] };
+                for so in outcomes {
+                    let mut line = format!("cli {kind} -");
+                    let mut first_disc = true;
+                    let mut tid = 0u16;
+                    let mut unit: u8 = if kind == "tcp" { 255 } else { 0 };
+                    for s in &seq {
+                        match s {
+                            0 => {
+                                let reply = frame(kind, tid, unit, &[0x03, 0x02, 0x12, 0x34]);
+                                line.push_str(&format!(" | call RHR:0001:0001 r=d{}", hex_raw(&reply)));
+                                tid = tid.wrapping_add(1);
+                            }
+                            1 => {
+                                unit = rng.u8();
+                                line.push_str(&format!(" | slave {}", hex8(unit)));
+                            }
+                            _ => {
+                                if first_disc && !so.is_empty() {
+                                    line.push_str(&format!(" | disc {so}"));
+                                } else {
+                                    line.push_str(" | disc");
+                                }
+                                first_disc = false;
+                            }
+                        }
+                    }
+                    monitor_line(out, &line);
+                }
+            }
+        }
+    }
+}
+
+pub fn mon_c15(out: &mut Out, l: &str, r: &str) {
+    let (head, ops) = ops_of(l);
+    if head[0] != "cli" {
+        return;
+    }
+    let res = parts(r);
+    let mut disconnected = false;
+    let mut shutdowns = 0usize;
+    for (i, o) in ops.iter().enumerate() {
+        let rp = res.get(i).copied().unwrap_or("");
+        let sd: usize = rp.split(' ').find_map(|t| t.strip_prefix("sd=")).and_then(|s| s.parse().ok()).unwrap_or(0);
+        shutdowns += sd;
+        let got = outcome_of(rp);
+        match o.name {
+            "disc" => {
+                if !disconnected {
+                    let s = field("s", &o.fields);
+                    let last = s.split(',').find(|e| *e != "p").unwrap_or("o");
+                    let expect = match last {
+                        "" | "o" | "xnc" | "xbp" => "ok".to_string(),
+                        e => format!("err:{}", &e[1..]),
+                    };
+                    out.check(got == expect, || format!("first disconnect with shutdown outcome `{s}`: expected `{expect}` got `{got}`"), l);
+                    out.check(sd == 1, || format!("first disconnect shut the transport down {sd} times"), l);
+                    disconnected = true;
+                } else {
+                    out.check(got == "ok" && sd == 0 && written(rp).is_empty(), || format!("disconnecting again must succeed without touching the transport: `{rp}`"), l);
+                }
+            }
+            "call" | "typed" => {
+                if disconnected {
+                    out.check(got == "tr:nc" && written(rp).is_empty() && sd == 0, || format!("call after disconnect: expected NotConnected and no write, got `{rp}`"), l);
+                }
+            }
+            _ => {}
+        }
+    }
+    out.check(shutdowns <= 1, || format!("transport shut down {shutdowns} times"), l);
+}
+
+// ================================================================ C16
+
+pub fn gen_c16(out: &mut Out, rng: &mut Rng, thorough: bool) {
+    let shapes = if thorough { 40 } else { 12 };
+    let patterns = if thorough { 120 } else { 30 };
+    for si in 0..shapes {
+        let kind = if si % 2 == 0 { "tcp" } else { "rtu" };
+        let unit = rng.u8();
+        let req1 = loop {
+            let hint = rng.below(5);
+            let r = gen_request(rng, Some(hint));
+            if kind == "rtu" && matches!(r, Request::Custom(..)) {
+                continue;
+            }
+            break r;
+        };
+        let rsp1 = answer_for(rng, &req1);
+        let Some(rsp1b) = spec::response_bytes(&rsp1) else { continue };
+        let reqf1 = frame(kind, 0, unit, &spec::request_bytes(&req1).unwrap());
+        let req2 = Request::ReadHoldingRegisters(0x0102, 1);
+        for _ in 0..patterns {
+            // a write pattern with pending points; flush pending too
+            let mut w = vec![];
+            let mut left = reqf1.len();
+            let mut pendings = 0;
+            while left > 0 {
+                if rng.chance(2, 5) {
+                    w.push("p".to_string());
+                    pendings += 1;
+                } else {
+                    let k = rng.range(1, left.min(6));
+                    w.push(format!("a{k}"));
+                    left -= k;
+                }
+            }
+            let f = match rng.below(3) {
+                0 => {
+                    pendings += 1;
+                    " f=p,o"
+                }
+                _ => "",
+            };
+            // the reply to call 1 may trickle in with pendings as well
+            let reply1 = frame(kind, 0, unit, &rsp1b);
+            let rparts = rng.composition(reply1.len());
+            let mut r1: Vec<String> = vec![];
+            for c in chunk(&reply1, &rparts) {
+                if rng.chance(1, 2) {
+                    r1.push("p".into());
+                    pendings += 1;
+                }
+                r1.push(format!("d{}", hex_raw(&c)));
+            }
+            // drop the future at every poll index
+            for b in 0..=pendings + 1 {
+                // how call 2 sees the world: optionally a late reply to call 1 first (TCP)
+                let late = b > 0 && kind == "tcp" && rng.bool();
+                let tid2 = if b == 0 { 0 } else { 1 };
+                let reply2 = frame(kind, tid2, unit, &[0x03, 0x02, 0xCA, 0xFE]);
+                let r2 = format!("d{}", hex_raw(&reply2));
+                let line = format!(
+                    "cli {kind} {} | call {} b={b} w={}{f} r={} | call {} r={}",
+                    hex8(unit),
+                    request(&req1),
+                    w.join(","),
+                    if late { "-".to_string() } else { r1.join(",") },
+                    request(&req2),
+                    if late { format!("d{},{}", hex_raw(&reply1), r2) } else { r2.clone() },
+                );
+                monitor_line(out, &line);
+            }
+        }
+    }
+}
+
+pub fn mon_c16(out: &mut Out, l: &str, r: &str) {
+    let (head, ops) = ops_of(l);
+    if head[0] != "cli" || ops.len() != 2 || ops[0].name != "call" || ops[1].name != "call" {
+        return;
+    }
+    let kind = head[1];
+    let res = parts(r);
+    if res.len() != 2 {
+        return;
+    }
+    let got1 = outcome_of(res[0]);
+    let got2 = outcome_of(res[1]);
+    out.check(!r.contains("panic"), || "panic".into(), l);
+    let (Some(q1), Some(q2)) = (op_request(&ops[0]), op_request(&ops[1])) else { return };
+    let (t1, u1) = expected_hdr(&head, &ops, 0);
+    let (t2, u2) = expected_hdr(&head, &ops, 1);
+    let f1 = frame(kind, t1, u1, &spec::request_bytes(&q1).unwrap());
+    let f2 = frame(kind, t2, u2, &spec::request_bytes(&q2).unwrap());
+    let mut all = written(res[0]);
+    all.extend(written(res[1]));
+    // lifetime bytes on the transport: whole frames only, each one of the requests issued
+    let never_polled = field("b", &ops[0].fields) == "0";
+    let mut expect = if never_polled { vec![] } else { f1.clone() };
+    expect.extend(&f2);
+    if got2 != "blocked" && !got2.starts_with("tr:") {
+        out.check(all == expect, || format!("bytes that reached the transport are not the concatenation of the whole request frames: {} (expected {})", hex(&all), hex(&expect)), l);
+    }
+    if got1 != "abandoned" || never_polled {
+        return;
+    }
+    // the next call performs a normal exchange; a late TCP reply is a mismatch, never an answer
+    let r2 = parse_events(field("r", &ops[1].fields));
+    let reply2 = frame(kind, t2, u2, &[0x03, 0x02, 0xCA, 0xFE]);
+    if r2.data == reply2 {
+        out.check(got2 == "ok RHR:CAFE", || format!("call after an abandoned call did not perform a normal exchange: `{got2}`"), l);
+    } else if kind == "tcp" {
+        // something else arrives first: a late reply to the abandoned request
+        if let Some(MbapItem::Frame(t, _, _)) = spec::split_mbap(&r2.data).first() {
+            if *t != t2 {
+                out.check(got2.starts_with("hm "), || format!("late reply to the abandoned request was not reported as a header mismatch: `{got2}`"), l);
+            }
+        }
+        out.check(!got2.starts_with("ok ") || got2 == "ok RHR:CAFE", || format!("call after an abandoned call returned a foreign answer: `{got2}`"), l);
+    }
+}
+
+// ================================================================ C20
+
+pub fn gen_c20(out: &mut Out, rng: &mut Rng, thorough: bool) {
+    let reps = if thorough { 40 } else { 2 };
+    for _ in 0..reps {
+        for kind in ["tcp", "rtu"] {
+            let unit = rng.u8();
+            let head = format!("cli {kind} {}", hex8(unit));
+            // reads: item counts 0..2*cnt (bits: whole bytes), all five methods
+            for cnt in [0u16, 1, 2, 7, 8, 9, 15, 16, 17, 60] {
+                for have in 0..=(2 * usize::from(cnt) + 9) {
+                    let a = rng.u16();
+                    let (ops, pdus): (Vec<TypedOp>, Vec<Vec<u8>>) = {
+                        let bits = rng.bits(have.div_ceil(8) * 8);
+                        let ws = rng.words(have.min(125));
+                        (
+                            vec![
+                                TypedOp::Rc(a, cnt),
+                                TypedOp::Rdi(a, cnt),
+                                TypedOp::Rhr(a, cnt),
+                                TypedOp::Rir(a, cnt),
+                                TypedOp::Rwm(a, cnt, rng.u16(), rng.words_in(0, 3)),
+                            ],
+                            vec![
+                                spec::response_bytes(&Response::ReadCoils(bits.clone())).unwrap(),
+                                spec::response_bytes(&Response::ReadDiscreteInputs(bits)).unwrap(),
+                                spec::response_bytes(&Response::ReadHoldingRegisters(ws.clone())).unwrap(),
+                                spec::response_bytes(&Response::ReadInputRegisters(ws.clone())).unwrap(),
+                                spec::response_bytes(&Response::ReadWriteMultipleRegisters(ws)).unwrap(),
+                            ],
+                        )
+                    };
+                    for (op, pdu) in ops.iter().zip(pdus.iter()) {
+                        monitor_line(out, &format!("{head} | typed {} r=d{}", op.tok(), hex_raw(&frame(kind, 0, unit, pdu))));
+                    }
+                }
+            }
+            // writes: echoes equal / different
+            for _ in 0..(if thorough { 400 } else { 120 }) {
+                let a = rng.u16();
+                let v = rng.u16();
+                let b = rng.bool();
+                let cs = rng.bits_in(0, 30);
+                let ws = rng.words_in(0, 10);
+                let (am, om) = (rng.u16(), rng.u16());
+                let twist = |rng: &mut Rng, x: u16| if rng.chance(1, 3) { x ^ (1 << rng.below(16)) } else { x };
+                let cases: Vec<(TypedOp, Response)> = vec![
+                    (TypedOp::Wsc(a, b), Response::WriteSingleCoil(twist(rng, a), if rng.chance(1, 4) { !b } else { b })),
+                    (TypedOp::Wsr(a, v), Response::WriteSingleRegister(twist(rng, a), twist(rng, v))),
+                    (TypedOp::Wmc(a, cs.clone()), Response::WriteMultipleCoils(twist(rng, a), twist(rng, cs.len() as u16))),
+                    (TypedOp::Wmr(a, ws.clone()), Response::WriteMultipleRegisters(twist(rng, a), twist(rng, ws.len() as u16))),
+                    (TypedOp::Mwr(a, am, om), Response::MaskWriteRegister(twist(rng, a), twist(rng, am), twist(rng, om))),
+                ];
+                for (op, rsp) in cases {
+                    let pdu = spec::response_bytes(&rsp).unwrap();
+                    monitor_line(out, &format!("{head} | typed {} r=d{}", op.tok(), hex_raw(&frame(kind, 0, unit, &pdu))));
+                    // exception instead
+                    if rng.chance(1, 6) {
+                        let fc = pdu[0] | 0x80;
+                        monitor_line(out, &format!("{head} | typed {} r=d{}", op.tok(), hex_raw(&frame(kind, 0, unit, &[fc, rng.u8()]))));
+                    }
+                }
+            }
+        }
+    }
+}
+
+pub fn mon_c20(out: &mut Out, l: &str, r: &str) {
+    let (head, ops) = ops_of(l);
+    if head[0] != "cli" || ops.len() != 1 || ops[0].name != "typed" {
+        return;
+    }
+    let kind = head[1];
+    let got = outcome_of(parts(r)[0]);
+    out.check(!got.contains("panic"), || format!("typed method panicked: {r}"), l);
+    let Some(op) = TypedOp::parse(ops[0].arg) else { return };
+    let pe = parse_events(field("r", &ops[0].fields));
+    let pdu = if kind == "tcp" {
+        match spec::split_mbap(&pe.data).as_slice() {
+            [MbapItem::Frame(_, _, p)] => p.clone(),
+            _ => return,
+        }
+    } else {
+        match split_rtu_clean(&pe.data, false) {
+            Some(v) if v.len() == 1 => v[0].1.clone(),
+            _ => return,
+        }
+    };
+    let Verdict::Accept(rsp) = (if pdu[0] < 0x80 { spec::classify_response(&pdu) } else { Verdict::Unspecified }) else { return };
+    if let Some(v) = got.strip_prefix("ok ") {
+        match (&op, &rsp) {
+            (TypedOp::Rc(_, cnt), Response::ReadCoils(bs)) | (TypedOp::Rdi(_, cnt), Response::ReadDiscreteInputs(bs)) => {
+                let n = usize::from(*cnt);
+                let ok = bs.len() >= n && v == format!("bits:{}", bits(&bs[..n]));
+                out.check(ok, || format!("typed bit read of {n} items returned `{v}` from a reply with {} items", bs.len()), l);
+            }
+            (TypedOp::Rhr(_, cnt), Response::ReadHoldingRegisters(ws))
+            | (TypedOp::Rir(_, cnt), Response::ReadInputRegisters(ws))
+            | (TypedOp::Rwm(_, cnt, _, _), Response::ReadWriteMultipleRegisters(ws)) => {
+                let n = usize::from(*cnt);
+                let ok = ws.len() == n && v == format!("words:{}", words(ws));
+                out.check(ok, || format!("typed register read of {n} items returned `{v}` from a reply with {} items", ws.len()), l);
+            }
+            (TypedOp::Wsc(..), Response::WriteSingleCoil(..))
+            | (TypedOp::Wsr(..), Response::WriteSingleRegister(..))
+            | (TypedOp::Wmc(..), Response::WriteMultipleCoils(..))
+            | (TypedOp::Wmr(..), Response::WriteMultipleRegisters(..))
+            | (TypedOp::Mwr(..), Response::MaskWriteRegister(..)) => {
+                out.check(v == "unit", || format!("typed write returned `{v}`"), l);
+            }
+            _ => out.check(false, || format!("typed method reports success `{v}` for a reply of another kind: {}", response(&rsp)), l),
+        }
+    }
+}
+
+// ================================================================ C01
+
+fn c01_request(rng: &mut Rng, kind: &str) -> Request<'static> {
+    loop {
+        let r = gen_request(rng, None);
+        if spec::request_bytes(&r).is_none_or(|b| b.len() > 253) {
+            continue;
+        }
+        if let Request::Custom(fc, d) = &r {
+            if kind == "rtu" {
+                // what the RTU framing can carry as a raw request
+                let fc = *rng.pick(&[0x07u8, 0x0B, 0x0C, 0x18]);
+                return Request::Custom(fc, Cow::Owned(if fc == 0x18 { rng.bytes(2) } else { vec![] }));
+            }
+            let _ = (fc, d);
+        }
+        return r;
+    }
+}
+
+fn typed_for(rng: &mut Rng) -> TypedOp {
+    match rng.below(10) {
+        0 => TypedOp::Rc(rng.u16(), rng.u16()),
+        1 => TypedOp::Rdi(rng.u16(), rng.u16()),
+        2 => TypedOp::Rhr(rng.u16(), rng.u16()),
+        3 => TypedOp::Rir(rng.u16(), rng.u16()),
+        4 => TypedOp::Rwm(rng.u16(), rng.u16(), rng.u16(), rng.words_in(0, 121)),
+        5 => TypedOp::Wsc(rng.u16(), rng.bool()),
+        6 => TypedOp::Wsr(rng.u16(), rng.u16()),
+        7 => TypedOp::Wmc(rng.u16(), rng.bits_in(0, 1976)),
+        8 => TypedOp::Wmr(rng.u16(), rng.words_in(0, 123)),
+        _ => TypedOp::Mwr(rng.u16(), rng.u16(), rng.u16()),
+    }
+}
+
+pub fn gen_c01(out: &mut Out, rng: &mut Rng, thorough: bool) {
+    let n = if thorough { 100_000 } else { 5_000 };
+    for i in 0..n {
+        let kind = if i % 2 == 0 { "tcp" } else { "rtu" };
+        // slave selection: default, attach_slave, set_slave histories
+        let mut line = format!("cli {kind} {}", if rng.chance(1, 4) { "-".into() } else { hex8(rng.u8()) });
+        for _ in 0..rng.below(3) {
+            line.push_str(&format!(" | slave {}", hex8(rng.u8())));
+        }
+        if rng.chance(1, 3) {
+            line.push_str(&format!(" | typed {}", typed_for(rng).tok()));
+        } else {
+            line.push_str(&format!(" | call {}", request(&c01_request(rng, kind))));
+        }
+        if rng.chance(1, 4) {
+            line.push_str(" w=a1,p,a2,a3,p,a5");
+        }
+        monitor_line(out, &line);
+    }
+    // every slave id, both framings
+    for kind in ["tcp", "rtu"] {
+        for id in 0..=255u8 {
+            monitor_line(out, &format!("cli {kind} - | slave {} | call RHR:0001:0002", hex8(id)));
+            monitor_line(out, &format!("cli {kind} {} | call WSC:0001:1", hex8(id)));
+        }
+    }
+    // short frames under every fragmentation
+    for kind in ["tcp", "rtu"] {
+        for req in ["RSI", "RC:0102:0304", "CU:07:-"] {
+            monitor_line(out, &format!("cli {kind} 2A exhaustive=1 | call {req}"));
+        }
+    }
+}
+
+pub fn mon_c01(out: &mut Out, l: &str, r: &str) {
+    let (head, ops) = ops_of(l);
+    if head[0] != "cli" || ops.is_empty() {
+        return;
+    }
+    let kind = head[1];
+    let i = ops.len() - 1;
+    let Some(req) = op_request(&ops[i]) else { return };
+    let Some(reqb) = spec::request_bytes(&req) else { return };
+    if reqb.len() > 253 {
+        return;
+    }
+    let (tid, unit) = expected_hdr(&head, &ops, i);
+    let res = parts(r);
+    let w = written(res.get(i).copied().unwrap_or(""));
+    // (1) exactly one frame, whose PDU is the Modbus encoding of the request
+    let f = frame(kind, tid, unit, &reqb);
+    out.check(w == f, || format!("request {} for unit {unit:02X} was written as {} instead of {}", request(&req), super::codec::trunc(&hex(&w)), super::codec::trunc(&hex(&f))), l);
+    if w != f {
+        return;
+    }
+    // (2) a server built from the library hands its service one equal request with the same slave id
+    let deliverable = match &req {
+        Request::Custom(fc, d) => {
+            // raw requests whose code the decoder models are delivered as their typed variant or rejected
+            !MODELLED_REQ.contains(fc)
+                && (kind == "tcp" || (RTU_REQ_CODES.contains(fc) && ((*fc == 0x18 && d.len() == 2) || (*fc != 0x18 && d.is_empty()))))
+        }
+        _ => true,
+    };
+    if !deliverable {
+        return;
+    }
+    let expect = format!("call {} {} | end blocked", hex8(unit), request(&req));
+    let chunkings: Vec<Vec<Vec<u8>>> = if head.iter().any(|h| *h == "exhaustive=1") && w.len() <= 13 {
+        all_chunkings(&w).collect()
+    } else {
+        derived_chunkings(&w, 2)
+    };
+    for ch in chunkings {
+        let (l2, r2) = out.case(&format!("srv {kind} svc=D r={}", chunks_tok(&ch)));
+        out.check(r2 == expect, || format!("server side saw `{}` instead of `{}`", super::codec::trunc(&r2), super::codec::trunc(&expect)), &l2);
+    }
+}
+
+// ================================================================ C02
+
+pub fn gen_c02(out: &mut Out, rng: &mut Rng, thorough: bool) {
+    let n = if thorough { 60_000 } else { 3_000 };
+    for i in 0..n {
+        let kind = if i % 2 == 0 { "tcp" } else { "rtu" };
+        let unit = rng.u8();
+        let req = c01_request(rng, kind);
+        let reqf = frame(kind, 0, unit, &spec::request_bytes(&req).unwrap());
+        let svc = if rng.chance(1, 4) {
+            let code = rng.u8();
+            if rng.chance(1, 5) {
+                format!("X=c{}", hex8(code))
+            } else {
+                format!("X={}", hex8(code))
+            }
+        } else {
+            let rsp = loop {
+                let r = if rng.chance(1, 5) { gen_response_same_kind(rng, &req) } else { answer_for(rng, &req) };
+                if spec::response_bytes(&r).is_some_and(|b| b.len() <= 253) {
+                    break r;
+                }
+            };
+            format!("R={}", response(&rsp))
+        };
+        monitor_line(out, &format!("srv {kind} svc={svc} r=d{}", hex_raw(&reqf)));
+    }
+    // all 256 exception codes
+    for kind in ["tcp", "rtu"] {
+        for code in 0..=255u8 {
+            let reqf = frame(kind, 0, 0x11, &[0x03, 0, 1, 0, 1]);
+            monitor_line(out, &format!("srv {kind} svc=X={} r=d{}", hex8(code), hex_raw(&reqf)));
+        }
+    }
+}
+
+/// a response of the kind that answers `req`, with maximal / random payload
+fn gen_response_same_kind(rng: &mut Rng, req: &Request<'_>) -> Response {
+    match req {
+        Request::ReadCoils(..) => Response::ReadCoils(rng.bits_in(0, 2008)),
+        Request::ReadDiscreteInputs(..) => Response::ReadDiscreteInputs(rng.bits_in(0, 2008)),
+        Request::ReadHoldingRegisters(..) => Response::ReadHoldingRegisters(rng.words_in(0, 125)),
+        Request::ReadInputRegisters(..) => Response::ReadInputRegisters(rng.words_in(0, 125)),
+        Request::ReadWriteMultipleRegisters(..) => Response::ReadWriteMultipleRegisters(rng.words_in(0, 125)),
+        Request::ReportServerId => Response::ReportServerId(rng.u8(), rng.bool(), rng.bytes_in(0, 249)),
+        r => answer_for(rng, r),
+    }
+}
+
+pub fn mon_c02(out: &mut Out, l: &str, r: &str) {
+    let t: Vec<&str> = l.split(' ').collect();
+    if t[0] != "srv" {
+        return;
+    }
+    let kind = t[1];
+    let fields = &t[2..];
+    let svc = field("svc", fields);
+    if svc.contains(',') || svc.is_empty() {
+        return;
+    }
+    let pe = parse_events(field("r", fields));
+    // one request frame with transaction id 0
+    let (unit, reqpdu) = if kind == "tcp" {
+        match spec::split_mbap(&pe.data).as_slice() {
+            [MbapItem::Frame(0, u, p)] => (*u, p.clone()),
+            _ => return,
+        }
+    } else {
+        match split_rtu_clean(&pe.data, true) {
+            Some(v) if v.len() == 1 => (v[0].0, v[0].1.clone()),
+            _ => return,
+        }
+    };
+    let Verdict::Accept(req) = spec::classify_request(&reqpdu) else { return };
+    let produced = crate::run::Svc::parse(svc).unwrap();
+    // what must come out of the client call
+    let (pdu, expect_call) = match &produced {
+        crate::run::Svc::Reply(rsp) => {
+            let Some(b) = spec::response_bytes(rsp) else { return };
+            if b.len() > 253 {
+                return;
+            }
+            // the client only accepts it for a request with the same function code
+            if b[0] != reqpdu[0] {
+                return;
+            }
+            (b, format!("ok {}", response(&spec::pad8(rsp))))
+        }
+        crate::run::Svc::Exception(e) => {
+            let code: u8 = (*e).into();
+            (vec![reqpdu[0] | 0x80, code], format!("exc {}", hex8(code)))
+        }
+        crate::run::Svc::Decline => return,
+    };
+    let f = frame(kind, 0, unit, &pdu);
+    let ps = parts(r);
+    let writes: Vec<&str> = ps.iter().filter_map(|p| p.strip_prefix("write ")).collect();
+    let all: Vec<u8> = writes.iter().flat_map(|h| p_bytes(h).unwrap()).collect();
+    out.check(all == f, || format!("response was written as {} instead of {}", super::codec::trunc(&hex(&all)), super::codec::trunc(&hex(&f))), l);
+    if all != f {
+        return;
+    }
+    // over RTU the client must be able to delimit the reply
+    if kind == "rtu" {
+        let base = pdu[0] & 0x7F;
+        if !RTU_RSP_CODES.contains(&base) || (pdu[0] >= 0x80 && base > 0x2B) {
+            return;
+        }
+        if pdu[0] < 0x80 && !MODELLED_RSP.contains(&base) {
+            // custom replies over RTU must follow the length table's layout
+            return;
+        }
+    }
+    for ch in derived_chunkings(&all, 2) {
+        let (l2, r2) = out.case(&format!("cli {kind} {} | call {} r={}", hex8(unit), request(&req), chunks_tok(&ch)));
+        let got = outcome_of(parts(&r2)[0]).to_string();
+        out.check(got == expect_call, || format!("client call returned `{}` instead of `{}`", super::codec::trunc(&got), super::codec::trunc(&expect_call)), &l2);
+    }
+    // typed bit reads return exactly the requested count
+    if let (Request::ReadCoils(a, q), crate::run::Svc::Reply(Response::ReadCoils(bs)))
+    | (Request::ReadDiscreteInputs(a, q), crate::run::Svc::Reply(Response::ReadDiscreteInputs(bs))) = (&req, &produced)
+    {
+        if bs.len() == usize::from(*q) {
+            let op = if matches!(req, Request::ReadCoils(..)) { TypedOp::Rc(*a, *q) } else { TypedOp::Rdi(*a, *q) };
+            let (l2, r2) = out.case(&format!("cli {kind} {} | typed {} r=d{}", hex8(unit), op.tok(), hex_raw(&all)));
+            let got = outcome_of(parts(&r2)[0]).to_string();
+            let e = format!("ok bits:{}", bits(bs));
+            out.check(got == e, || format!("typed bit read returned `{}` instead of `{}`", super::codec::trunc(&got), super::codec::trunc(&e)), &l2);
+        }
+    }
+}
